@@ -91,12 +91,12 @@ def fiddler_from_diff(
 
   The body of the returned function has three sections:
 
-  * The first section creates variables for any new shared values that are
-    added by the diff (i.e., values in `diff.new_shared_values`).
-  * The second section creates variables to act as aliases for values in the
+  * The first section creates variables to act as aliases for values in the
     in the input `Config`.  This ensures that we can still reference those
     values even after we've made mutations to the `Config` that might make
     them unreachable from their original location.
+  * The second section creates variables for any new shared values that are
+    added by the diff (i.e., values in `diff.new_shared_values`).
   * The final section modifies the `Config` in-place, as described by
     `diff.changes`.  Changes are grouped by the parent object that they modify.
     This section contains one statement for each change.
@@ -190,12 +190,13 @@ def fiddler_from_diff(
       py_val_to_cst_converter.convert_py_val_to_cst,
       additional_converters=value_converters)
 
+  # The aliases come first: new shared values may refer to them.
   body = []
+  body += _cst_for_moved_value_variables(param_name, moved_value_names,
+                                         pyval_to_cst)
   body += _cst_for_new_shared_value_variables(diff.new_shared_values,
                                               new_shared_value_names,
                                               pyval_to_cst)
-  body += _cst_for_moved_value_variables(param_name, moved_value_names,
-                                         pyval_to_cst)
   body += _cst_for_changes(diff, param_name, moved_value_names, pyval_to_cst)
 
   fiddler = _cst_for_fiddler(func_name, param_name, body,
